@@ -27,6 +27,9 @@ REPO = os.environ.get("VERIF_REPO", "/repo")
 REPO_LIB = os.path.join(REPO, "Lib")
 TESTS = os.path.join(REPO, "Tests")
 NPROC = int(os.environ.get("VERIF_NPROC", "16"))
+# where evidence/ and replays/ are written: /verif, except for runs against a mutated scratch tree
+# (tools/mut.py, tools/seedcheck.py set VERIF_OUT so that committed evidence is never overwritten by them)
+OUT = os.environ.get("VERIF_OUT", VERIF)
 
 
 class HarnessError(Exception):
@@ -385,6 +388,31 @@ def match_known(prop_id, f, known):
 # driver
 
 
+def _replay_job(mod, job):
+    """Replay tier: a saved failing case (a former violation, a seeded change's witness or a known
+    finding) re-run through mod.replay; its failures are bucketed like any other."""
+    acc = Acc()
+    try:
+        with open(job["path"]) as fh:
+            rec = json.load(fh)
+        with time_limit(180):
+            fails = mod.replay(from_jsonable(rec["case"]))
+    except CaseTimeout:
+        acc.inconclusive += 1
+        acc.label("replay-tier:timeout")
+        return acc
+    except HarnessError:
+        raise
+    except Exception as e:  # a stale replay file must never break the check
+        acc.label("replay-tier:not-replayable:%s" % type(e).__name__)
+        return acc
+    acc.evals += 1
+    acc.label("replay-tier:cases")
+    for f in fails or []:
+        acc.fail(f.get("clause", "replay"), f.get("kind", "?"), f.get("detail", ""), rec["case"], f.get("where", ""))
+    return acc
+
+
 def _worker(args):
     modname, job = args
     try:
@@ -393,6 +421,8 @@ def _worker(args):
 
         mod = importlib.import_module(modname)
         t0 = time.time()
+        if job.get("kind") == "__replay__":
+            return ("ok", job, _replay_job(mod, job))
         acc = mod.run_job(job)
         acc.extra.setdefault("job_wall", {})[job.get("name", job.get("kind", "job"))] = round(time.time() - t0, 2)
         return ("ok", job, acc)
@@ -406,6 +436,11 @@ def run(mod, tier, seed, nproc=None):
     t0 = time.time()
     bootstrap()
     jobs = mod.jobs(tier, seed)
+    # replay tier: committed replay files of this property run first (seconds)
+    rdir0 = os.path.join(VERIF, "replays", mod.ID)
+    if os.path.isdir(rdir0) and not getattr(mod, "NO_REPLAY_TIER", False):
+        rp = sorted(f for f in os.listdir(rdir0) if f.endswith(".json"))[: getattr(mod, "REPLAY_TIER_MAX", 40)]
+        jobs = [dict(kind="__replay__", name="replay:" + f, path=os.path.join(rdir0, f)) for f in rp] + jobs
     total = Acc()
     harness_errors = []
     nproc = nproc or NPROC
@@ -453,7 +488,7 @@ def run(mod, tier, seed, nproc=None):
     violations = 0
     known_hits = collections.OrderedDict()
     out_lines = []
-    rdir = os.path.join(VERIF, "replays", mod.ID)
+    rdir = os.path.join(OUT, "replays", mod.ID)
     for key, fs in buckets.items():
         unknown = []
         for f in fs:
@@ -487,7 +522,7 @@ def run(mod, tier, seed, nproc=None):
                 sort_keys=True,
             )
         violations += 1
-        out_lines.append("VIOLATION property=%s replay=%s" % (mod.ID, os.path.relpath(path, VERIF)))
+        out_lines.append("VIOLATION property=%s replay=%s" % (mod.ID, os.path.relpath(path, VERIF) if OUT == VERIF else path))
         out_lines.append("  bucket=%s n=%d detail=%s" % (key, total._bucket_counts.get(key, len(fs)), short(f["detail"], 300)))
     for kid, (e, n) in known_hits.items():
         print("KNOWN-FINDING: property=%s %s (%s; %d case(s) this run)" % (mod.ID, e["what"], kid, n))
@@ -521,8 +556,8 @@ def run(mod, tier, seed, nproc=None):
         wall_s=round(time.time() - t0, 2),
         violations=violations,
     )
-    os.makedirs(os.path.join(VERIF, "evidence"), exist_ok=True)
-    with open(os.path.join(VERIF, "evidence", "%s.json" % mod.ID), "w") as fh:
+    os.makedirs(os.path.join(OUT, "evidence"), exist_ok=True)
+    with open(os.path.join(OUT, "evidence", "%s.json" % mod.ID), "w") as fh:
         json.dump(ev, fh, indent=1, sort_keys=True)
         fh.write("\n")
 
